@@ -104,6 +104,12 @@ def gen_spec(rng, max_world=8, checkpoint=False, clip=None, topo=None, deep=0.1)
                 hook=rng.random() < 0.5, acc=rng.choice([1, 1, 2]), strategy=rng.choice(['COMPUTE', 'MEMORY']),
                 model_seed=rng.randrange(10 ** 6), data_seed=rng.randrange(10 ** 6), factor_dir=False, sym=rng.random() < 0.3)
     spec['layers'] = [len(kinds_of(spec, st)) for st in range(pp)]
+    # bias per layer (a stage may mix layers with and without bias); spec['bias'] stays the summary flag
+    if spec['bias'] and rng.random() < 0.4:
+        spec['biases'] = [[rng.random() < 0.5 for _ in range(n)] for n in spec['layers']]
+    else:
+        spec['biases'] = [[spec['bias']] * n for n in spec['layers']]
+    spec['fdt'] = 'float32' if rng.random() < 0.25 else None   # a factor dtype different from the (float64) weight dtype
     hist = [('train',)] * rng.randint(1, 4)
     if checkpoint:
         pos = rng.randint(1, len(hist))
@@ -128,10 +134,13 @@ def full_weights(spec, stage):
     g = torch.Generator().manual_seed(spec['model_seed'] * 10 + stage)
     out = []
     cur = stage_input_dim(spec, stage)
-    for kind in kinds_of(spec, stage):
+    biases = spec.get('biases', [[spec['bias']] * len(kinds_of(spec, st)) for st in range(spec['pp'])])[stage]
+    for li, kind in enumerate(kinds_of(spec, stage)):
         fout = spec['hidden'] if kind == 'col' else spec['d_out']
         W = torch.randn(fout, cur, generator=g, dtype=torch.float64) * 0.6
-        bvec = torch.randn(fout, generator=g, dtype=torch.float64) * 0.3 if spec['bias'] else None
+        bvec = torch.randn(fout, generator=g, dtype=torch.float64) * 0.3
+        if not biases[li]:
+            bvec = None
         out.append((kind, W, bvec))
         cur = fout
     return out
@@ -236,6 +245,7 @@ def sharded_rank_fn(spec, tmpdir=None):
                     damping=spec['damping'], kl_clip=spec['kl'], lr=spec.get('lr', 0.1), allreduce_bucket_cap_mb=spec['cap'],
                     factor_update_steps=spec['F'], inv_update_steps=spec['I'], update_factors_in_hook=spec['hook'],
                     accumulation_steps=spec['acc'], assignment_strategy=spec['strategy'], symmetry_aware=spec['sym'],
+                    factor_dtype=(getattr(torch, spec['fdt']) if spec.get('fdt') else None),
                     factor_checkpoint_dir=(tmpdir if spec.get('factor_dir') else None))
             return model, mods, p
 
@@ -354,7 +364,8 @@ def unsharded_rank_fn(spec):
             warnings.simplefilter('ignore')
             p = KFACPreconditioner(model, damping=spec['damping'], kl_clip=spec['kl'], lr=spec.get('lr', 0.1), allreduce_bucket_cap_mb=0.0,
                                    factor_update_steps=spec['F'], inv_update_steps=spec['I'], update_factors_in_hook=spec['hook'],
-                                   accumulation_steps=spec['acc'], compute_method='eigen', compute_eigenvalue_outer_product=False)
+                                   accumulation_steps=spec['acc'], compute_method='eigen', compute_eigenvalue_outer_product=False,
+                                   factor_dtype=(getattr(torch, spec['fdt']) if spec.get('fdt') else None))
         gens = [torch.Generator().manual_seed(spec['data_seed'] * 100 + st * 10 + rank) for st in range(spec['pp'])]
         rec = dict(grads=[], factors=[])
         for ev in spec['history']:
